@@ -18,6 +18,11 @@ def main():
     scratch = os.environ["C16_AMBIENT_SCRATCH"]
     os.makedirs(scratch, exist_ok=True)
     real_stdout = sys.stdout
+    try:
+        import yaw  # noqa: F401
+    except Exception as e:
+        real_stdout.write("C16AMB-UNUSABLE %s: %s\n" % (type(e).__name__, str(e)[:200]))
+        return
     from props import c16_ambient as amb
     from props import c16 as base
     from yaw.randoms import BoxRandoms
